@@ -213,6 +213,15 @@ func checkC02(c *core.Case, res core.RunResult) Result {
 // ---------------------------------------------------------------------------------------------------------------- C03
 
 func geomGraph(r *rand.Rand) (string, [][]string) {
+	fam, edges := geomGraphN(r)
+	if r.Intn(10) == 0 {
+		// node names are opaque: a tenth of the cases uses names whose concatenations collide ("a"+"ab" == "aa"+"b")
+		return fam + "+ambiguous-names", renameEdges(edges, ambiguousNames(r, nodeIDs(edges)))
+	}
+	return fam, edges
+}
+
+func geomGraphN(r *rand.Rand) (string, [][]string) {
 	if r.Intn(40) == 0 {
 		g := gen.LongEdges(r)
 		return g.Family, gen.Names(g)
